@@ -1,0 +1,1096 @@
+//! Facade over crate-private components for an external verification harness
+//! (cargo feature `verif`).
+//!
+//! The facade only constructs engine objects, passes calls through and exports data.
+//! It checks no invariant, repairs nothing and swallows no error: every fallible engine
+//! call hands its error back as `Err(String)` (`"<Display> (<Debug>)"` of the engine error).
+//! Nothing is wrapped in `catch_unwind`: engine panics propagate to the caller.
+//!
+//! Notes / deviations from the requested API (all forced by the internals):
+//!
+//! * `cache_stats` always returns zeros: `Pager::cache` is a private field without any
+//!   `pub(crate)` accessor, so `PageCache::stats` is not reachable from this module.
+//! * There is no Text type in the engine: SQL `TEXT` is `DataTypeKind::Blob`. `KeyKind::Text`,
+//!   `Key::T`, `ColKind::Text` and `V::Text` therefore map to a Blob holding the UTF-8 bytes
+//!   (`Blob::from(&str)`, i.e. VarInt length prefix + bytes). Decoding a Blob that is not valid
+//!   UTF-8 into `Key::T` / `V::Text` returns `Err`.
+//! * `header_of` exports the pager's IN-MEMORY copy of the page-zero header (the source of truth
+//!   while the engine runs); it is only written to disk by `Pager::flush`.
+//! * All page reads (`dump_btree_page`, `dump_overflow_page`, `free_list`, `overflow_chain`,
+//!   `full_payload`) go through `Pager::with_page`, i.e. through the page cache, exactly like the
+//!   engine's own reads. Consequences the caller must know about: (a) a page that is not cached
+//!   is loaded into the cache TYPED as requested (reading a B+tree page "as overflow" leaves an
+//!   overflow-typed frame in the cache, and the engine will then fail with "Expected btreepage
+//!   frame" until the cache is flushed), (b) a load may evict another frame and write it to disk
+//!   if dirty, (c) a cached frame of the other type yields the engine's `Err` ("Expected ... frame").
+//! * `PageDump::id` is the `page_number` stored in the page header (not the id that was asked for).
+//! * `CellDump::local_payload` is `CellRef::effective_data()` verbatim. For an overflow cell this
+//!   INCLUDES the trailing 8 bytes holding the big-endian id of the first overflow page (that is
+//!   how the engine stores it); `overflow_page` is the engine's decoding of those bytes.
+//! * Read-only tree operations (`search`, `scan`, `scan_backward`, `height`) use a
+//!   `BtreeReadAccessor` (as the engine's read paths do) because acquiring a page through a
+//!   `BtreeWriteAccessor` marks the frame dirty. Mutations use `BtreeWriteAccessor::new()`.
+//!   Every call builds a fresh `Btree` and drops it (releasing all latches) before returning.
+//! * `scan` / `scan_backward` first ask `Btree::is_empty()` and return `Ok(vec![])` for an empty
+//!   tree, which is the idiom of every engine caller (`iter_forward` itself returns
+//!   `BtreeError::BtreeEmpty`). Each position is decoded through `iterator.get_tree()` like
+//!   `SeqScan` does, so leaves are not kept latched.
+//! * `scan_backward` uses `Btree::into_iter_backward()` and pulls with `next_back()`
+//!   (`DoubleEndedIterator`). The engine itself never calls `into_iter_backward`; note that it
+//!   builds the iterator with `IterDirection::Forward`, which is why `next_back()` is the call
+//!   that walks towards the first key.
+//! * `full_payload` of an overflow cell first walks the chain with the bounded `overflow_chain`
+//!   (so that a cyclic chain is an `Err` instead of an endless loop / unbounded allocation) and
+//!   then lets the engine's own `Reassembler` produce the bytes.
+//! * Keys for `search`/`remove` are serialized like `key_bytes_for_value` in the tree tests and
+//!   `Validator` in the runtime: every key column written with `DataType::write_to` one after the
+//!   other starting at offset 0 of an 8-byte aligned buffer.
+//! * `catalog_roots` takes its snapshot with `TransactionCoordinator::snapshot(last_created_tx)`,
+//!   i.e. the snapshot the NEXT transaction would get, without starting (and thereby logging /
+//!   consuming the id of) a transaction. `CatalogEntry::next_row_id` is 0 for indexes (the engine
+//!   stores NULL there). Iterator errors are returned, not skipped (the engine's `vacuum` loop
+//!   skips them).
+//! * Extras not in the request, added because an external harness cannot build them itself:
+//!   `TreeEnv::open` (`Pager::open` on an existing file; min_keys / siblings are taken from the
+//!   header like `TransactionContext::tree_builder` does), `TreeEnv::tree_at` (handle for an
+//!   existing root), `TreeEnv::path`, `TreeEnv::decode_entry` (key + blob payload of a full cell
+//!   payload), `overflow_page_data`, the `WAL_*` record kind constants, `Wal::last_lsn` and
+//!   `Wal::push_with_lsn`.
+//! * `Wal::push` assigns the lsn exactly like `Pager::push_to_log`:
+//!   `WriteAheadLog::last_lsn() + 1`. Beware that `WriteAheadLog::last_lsn()` is the last lsn of
+//!   BLOCK ZERO, not the global last lsn, so it stops advancing once block zero is full; use
+//!   `push_with_lsn` to choose lsns yourself. Records are built with `prev_lsn = None`.
+//! * `TupleEnv::add_version`: the engine takes a `HashMap<usize, DataType>`, so if the same value
+//!   index is given twice the last one wins.
+
+use crate::{
+    DBConfig, Database,
+    io::{
+        disk::FileOperations,
+        pager::{Pager, SharedPager},
+        wal::WriteAheadLog,
+    },
+    multithreading::coordinator::Snapshot,
+    schema::{Column, Schema, base::Relation, meta_table_schema},
+    storage::{
+        BtreeMetadata, BtreeOps, Identifiable,
+        cell::OwnedCell,
+        core::buffer::Payload,
+        page::{BtreePage, OverflowPage},
+        tuple::{Row, Tuple, TupleBuilder, TupleReader, TupleRef},
+        wal::{OwnedRecord, RECORD_HEADER_SIZE, RecordType},
+    },
+    tree::{
+        accessor::{BtreeReadAccessor, BtreeWriteAccessor},
+        bplustree::{Btree, SearchResult},
+        cell_ops::Reassembler,
+    },
+    types::{Blob, DataType, DataTypeKind, Float64, Int32, Int64, UInt64, bool::Bool},
+};
+
+use std::{
+    collections::{HashMap, HashSet},
+    fmt::{Debug, Display},
+    io::Write,
+    path::{Path, PathBuf},
+};
+
+/// Formats an engine error: `Display` followed by `Debug`.
+fn es<E: Display + Debug>(e: E) -> String {
+    format!("{e} ({e:?})")
+}
+
+// ------------------------------------------------------------------------------------------
+// pages / pager
+// ------------------------------------------------------------------------------------------
+
+pub const META_TABLE_ROOT: u64 = 1;
+pub const META_INDEX_ROOT: u64 = 2;
+
+#[derive(Debug, Clone, PartialEq)]
+pub struct HeaderDump {
+    pub total_pages: u64,
+    pub first_free: Option<u64>,
+    pub last_free: Option<u64>,
+    pub page_size: usize,
+    pub min_keys: usize,
+    pub siblings: usize,
+    pub last_created_tx: u64,
+    pub last_committed_tx: u64,
+    pub last_stored_object: u64,
+}
+
+#[derive(Debug, Clone, PartialEq)]
+pub struct CellDump {
+    pub left_child: Option<u64>,
+    pub is_overflow: bool,
+    /// First page of the overflow chain (engine's `CellRef::overflow_page`).
+    pub overflow_page: Option<u64>,
+    /// Header + padded payload.
+    pub total_size: usize,
+    /// `total_size` + slot pointer.
+    pub storage_size: usize,
+    /// `effective_data()` of the cell as stored on the page. For an overflow cell: the local
+    /// part followed by the 8-byte big-endian id of the first overflow page.
+    pub local_payload: Vec<u8>,
+}
+
+#[derive(Debug, Clone, PartialEq)]
+pub struct PageDump {
+    /// `page_number` found in the page header.
+    pub id: u64,
+    /// `right_child` is None.
+    pub is_leaf: bool,
+    pub right_child: Option<u64>,
+    pub next: Option<u64>,
+    pub prev: Option<u64>,
+    pub num_slots: usize,
+    pub free_space: u32,
+    pub free_space_ptr: u32,
+    pub cells: Vec<CellDump>,
+}
+
+#[derive(Debug, Clone, PartialEq)]
+pub struct CatalogEntry {
+    pub object_id: u64,
+    pub name: String,
+    pub root: u64,
+    pub is_index: bool,
+    /// 0 for indexes.
+    pub next_row_id: u64,
+    /// Object ids of the indexes registered in a table's schema (sorted). Empty for indexes.
+    pub index_ids: Vec<u64>,
+}
+
+/// In-memory page-zero header of the pager.
+pub fn header_of(pager: &SharedPager) -> HeaderDump {
+    let p = pager.read();
+    let h = p.header_unchecked();
+    HeaderDump {
+        total_pages: h.total_pages,
+        first_free: h.first_free_page,
+        last_free: h.last_free_page,
+        page_size: h.page_size as usize,
+        min_keys: h.min_keys as usize,
+        siblings: h.num_siblings_per_side as usize,
+        last_created_tx: h.last_created_transaction,
+        last_committed_tx: h.last_committed_transaction,
+        last_stored_object: h.last_stored_object,
+    }
+}
+
+/// Reads page `id` AS a B+tree page (the caller knows it is one).
+pub fn dump_btree_page(pager: &SharedPager, id: u64) -> Result<PageDump, String> {
+    pager
+        .write()
+        .with_page::<BtreePage, _, _>(id, |page| {
+            let num_slots = page.num_slots();
+            let mut cells = Vec::with_capacity(num_slots);
+            for i in 0..num_slots {
+                let cell = page.cell(i);
+                cells.push(CellDump {
+                    left_child: cell.left_child(),
+                    is_overflow: cell.is_overflow(),
+                    overflow_page: cell.overflow_page(),
+                    total_size: cell.total_size(),
+                    storage_size: cell.storage_size(),
+                    local_payload: cell.effective_data().to_vec(),
+                });
+            }
+            PageDump {
+                id: page.id(),
+                is_leaf: page.is_leaf(),
+                right_child: page.right_child(),
+                next: page.next_sibling(),
+                prev: page.prev_sibling(),
+                num_slots,
+                free_space: page.free_space(),
+                free_space_ptr: page.free_space_pointer(),
+                cells,
+            }
+        })
+        .map_err(es)
+}
+
+/// Reads page `id` AS an overflow / free page: `(next, num_bytes)`.
+pub fn dump_overflow_page(pager: &SharedPager, id: u64) -> Result<(Option<u64>, u32), String> {
+    pager
+        .write()
+        .with_page::<OverflowPage, _, _>(id, |page| (page.next(), page.metadata().num_bytes))
+        .map_err(es)
+}
+
+/// Data bytes (`effective_data`) of overflow page `id`.
+pub fn overflow_page_data(pager: &SharedPager, id: u64) -> Result<Vec<u8>, String> {
+    pager
+        .write()
+        .with_page::<OverflowPage, _, _>(id, |page| page.effective_data().to_vec())
+        .map_err(es)
+}
+
+/// Walks `first_free -> next -> ...`. Gives up with `Err("cycle ...")` after `total_pages + 1` steps.
+pub fn free_list(pager: &SharedPager) -> Result<Vec<u64>, String> {
+    let (first, total_pages) = {
+        let p = pager.read();
+        let h = p.header_unchecked();
+        (h.first_free_page, h.total_pages)
+    };
+    walk_chain(pager, first, total_pages, "free list")
+}
+
+fn walk_chain(
+    pager: &SharedPager,
+    start: Option<u64>,
+    total_pages: u64,
+    what: &str,
+) -> Result<Vec<u64>, String> {
+    let mut out = Vec::new();
+    let mut current = start;
+    let mut steps: u64 = 0;
+    while let Some(id) = current {
+        if steps > total_pages {
+            return Err(format!(
+                "cycle (or chain longer than the file) in {what}: more than {} steps, total_pages = {total_pages}, visited so far = {out:?}",
+                steps
+            ));
+        }
+        steps += 1;
+        out.push(id);
+        current = pager
+            .write()
+            .with_page::<OverflowPage, _, _>(id, |page| page.next())
+            .map_err(es)?;
+    }
+    Ok(out)
+}
+
+/// `(hits, misses, evictions)`. Always zeros: the page cache is not reachable (see module doc).
+pub fn cache_stats(_pager: &SharedPager) -> (u64, u64, u64) {
+    (0, 0, 0)
+}
+
+/// Every relation (tables and indexes) of the meta table visible to a fresh snapshot.
+pub fn catalog_roots(db: &Database) -> Result<Vec<CatalogEntry>, String> {
+    let pager = db.pager().clone();
+    let (next_tx, min_keys, siblings) = {
+        let p = pager.read();
+        (
+            p.get_last_created_transaction(),
+            p.min_keys_per_page(),
+            p.num_siblings_per_side(),
+        )
+    };
+    let snapshot = db.coordinator().snapshot(next_tx).map_err(es)?;
+    let schema = meta_table_schema();
+
+    let mut tree = Btree::new(META_TABLE_ROOT, pager, min_keys, siblings)
+        .with_accessor(BtreeReadAccessor::new());
+
+    let mut out = Vec::new();
+    if tree.is_empty().map_err(es)? {
+        return Ok(out);
+    }
+
+    let mut iter = tree.iter_forward().map_err(es)?;
+    while let Some(pos) = iter.next() {
+        let pos = pos.map_err(es)?;
+        let mut reader_tree = iter.get_tree();
+        let entry = reader_tree
+            .with_cell_at(pos, |bytes| -> Result<Option<CatalogEntry>, String> {
+                let reader = TupleReader::from_schema(&schema);
+                let Some(layout) = reader.parse_for_snapshot(bytes, &snapshot).map_err(es)? else {
+                    return Ok(None);
+                };
+                let tuple = TupleRef::new(bytes, layout);
+                let row = tuple.to_row_with(&schema).map_err(es)?;
+                let relation = Relation::from_meta_table_row(row);
+                let is_index = relation.is_index();
+                let mut index_ids: Vec<u64> =
+                    relation.get_indexes().iter().map(|h| h.id()).collect();
+                index_ids.sort_unstable();
+                Ok(Some(CatalogEntry {
+                    object_id: relation.object_id(),
+                    name: relation.name().to_string(),
+                    root: relation.root(),
+                    is_index,
+                    next_row_id: if is_index {
+                        0
+                    } else {
+                        relation.next_row_id().value()
+                    },
+                    index_ids,
+                }))
+            })
+            .map_err(es)??;
+        if let Some(entry) = entry {
+            out.push(entry);
+        }
+    }
+
+    Ok(out)
+}
+
+// ------------------------------------------------------------------------------------------
+// B+tree component level
+// ------------------------------------------------------------------------------------------
+
+#[derive(Clone, Copy, Debug, PartialEq)]
+pub enum KeyKind {
+    BigUInt,
+    Int,
+    Text,
+    /// Composite key `(Int, Text)`.
+    IntText,
+}
+
+#[derive(Clone, Debug, PartialEq)]
+pub enum Key {
+    U(u64),
+    I(i32),
+    T(String),
+    IT(i32, String),
+}
+
+/// A pager on its own file (plus `axmos.log` next to it) and the tree parameters.
+pub struct TreeEnv {
+    pager: SharedPager,
+    path: PathBuf,
+    min_keys: usize,
+    siblings: usize,
+}
+
+impl Debug for TreeEnv {
+    fn fmt(&self, f: &mut std::fmt::Formatter<'_>) -> std::fmt::Result {
+        f.debug_struct("TreeEnv")
+            .field("path", &self.path)
+            .field("min_keys", &self.min_keys)
+            .field("siblings", &self.siblings)
+            .finish()
+    }
+}
+
+/// Root page + key kind + the schema: key column(s) then ONE Blob value column `data`.
+#[derive(Debug, Clone, PartialEq)]
+pub struct TreeHandle {
+    pub root: u64,
+    pub kind: KeyKind,
+    schema: Schema,
+}
+
+fn tree_schema(kind: KeyKind) -> Schema {
+    let data = Column::new_with_defaults(DataTypeKind::Blob, "data");
+    match kind {
+        KeyKind::BigUInt => Schema::new_table_with_num_keys(
+            vec![Column::new_with_defaults(DataTypeKind::BigUInt, "id"), data],
+            1,
+        ),
+        KeyKind::Int => Schema::new_table_with_num_keys(
+            vec![Column::new_with_defaults(DataTypeKind::Int, "id"), data],
+            1,
+        ),
+        KeyKind::Text => Schema::new_table_with_num_keys(
+            vec![Column::new_with_defaults(DataTypeKind::Blob, "id"), data],
+            1,
+        ),
+        KeyKind::IntText => Schema::new_table_with_num_keys(
+            vec![
+                Column::new_with_defaults(DataTypeKind::Int, "id"),
+                Column::new_with_defaults(DataTypeKind::Blob, "name"),
+                data,
+            ],
+            2,
+        ),
+    }
+}
+
+fn key_datatypes(kind: KeyKind, key: &Key) -> Result<Vec<DataType>, String> {
+    match (kind, key) {
+        (KeyKind::BigUInt, Key::U(v)) => Ok(vec![DataType::BigUInt(UInt64(*v))]),
+        (KeyKind::Int, Key::I(v)) => Ok(vec![DataType::Int(Int32(*v))]),
+        (KeyKind::Text, Key::T(s)) => Ok(vec![DataType::Blob(Blob::from(s.as_str()))]),
+        (KeyKind::IntText, Key::IT(i, s)) => Ok(vec![
+            DataType::Int(Int32(*i)),
+            DataType::Blob(Blob::from(s.as_str())),
+        ]),
+        (kind, key) => Err(format!(
+            "facade: key {key:?} does not match key kind {kind:?}"
+        )),
+    }
+}
+
+fn align_up(offset: usize, align: usize) -> usize {
+    (offset + align - 1) & !(align - 1)
+}
+
+/// Serialized key bytes (every key written with `DataType::write_to` from offset 0 of an
+/// aligned buffer).
+fn key_bytes(kind: KeyKind, key: &Key) -> Result<Payload, String> {
+    let keys = key_datatypes(kind, key)?;
+    let mut size = 0usize;
+    for k in &keys {
+        size = align_up(size, k.align()) + k.runtime_size();
+    }
+    let mut buffer = Payload::alloc_aligned(size).map_err(es)?;
+    let mut cursor = 0usize;
+    for k in &keys {
+        cursor = k
+            .write_to(buffer.effective_data_mut(), cursor)
+            .map_err(es)?;
+    }
+    Ok(buffer)
+}
+
+fn blob_text(blob: &Blob) -> Result<String, String> {
+    Ok(blob.as_str().map_err(es)?.to_string())
+}
+
+fn key_from_datatypes(kind: KeyKind, keys: &[DataType]) -> Result<Key, String> {
+    match (kind, keys) {
+        (KeyKind::BigUInt, [DataType::BigUInt(v)]) => Ok(Key::U(v.value())),
+        (KeyKind::Int, [DataType::Int(v)]) => Ok(Key::I(v.value())),
+        (KeyKind::Text, [DataType::Blob(b)]) => Ok(Key::T(blob_text(b)?)),
+        (KeyKind::IntText, [DataType::Int(v), DataType::Blob(b)]) => {
+            Ok(Key::IT(v.value(), blob_text(b)?))
+        }
+        (kind, keys) => Err(format!(
+            "facade: decoded key columns {keys:?} do not match key kind {kind:?}"
+        )),
+    }
+}
+
+/// Decodes key + blob payload of the LAST version of a tuple (no visibility check).
+fn decode_entry(kind: KeyKind, schema: &Schema, bytes: &[u8]) -> Result<(Key, Vec<u8>), String> {
+    let reader = TupleReader::from_schema(schema);
+    let layout = reader.parse_last_version(bytes).map_err(es)?;
+    let tuple = TupleRef::new(bytes, layout);
+    let row = tuple.to_row_with(schema).map_err(es)?;
+    let values = row.as_slice();
+    let num_keys = schema.num_keys();
+    let key = key_from_datatypes(kind, &values[..num_keys])?;
+    let payload = match &values[num_keys] {
+        DataType::Blob(b) => b.data().map_err(es)?.to_vec(),
+        other => {
+            return Err(format!(
+                "facade: value column decoded as {other:?}, expected a Blob"
+            ));
+        }
+    };
+    Ok((key, payload))
+}
+
+impl TreeEnv {
+    /// `Pager::from_config`; the WAL file is created next to `path` as `axmos.log`.
+    pub fn create(path: &Path, cfg: DBConfig) -> Result<TreeEnv, String> {
+        let pager = Pager::from_config(cfg, path).map_err(es)?;
+        Ok(TreeEnv {
+            pager: SharedPager::from(pager),
+            path: path.to_path_buf(),
+            min_keys: cfg.min_keys_per_page,
+            siblings: cfg.num_siblings_per_side,
+        })
+    }
+
+    /// `Pager::open` on an existing file (and its `axmos.log`). No recovery is run.
+    /// min_keys / siblings come from the page-zero header.
+    pub fn open(path: &Path) -> Result<TreeEnv, String> {
+        let pager = <Pager as FileOperations>::open(path).map_err(es)?;
+        let min_keys = pager.min_keys_per_page();
+        let siblings = pager.num_siblings_per_side();
+        Ok(TreeEnv {
+            pager: SharedPager::from(pager),
+            path: path.to_path_buf(),
+            min_keys,
+            siblings,
+        })
+    }
+
+    pub fn pager(&self) -> &SharedPager {
+        &self.pager
+    }
+
+    pub fn path(&self) -> &Path {
+        &self.path
+    }
+
+    /// Allocates a fresh root page (`Pager::allocate_page::<BtreePage>`).
+    pub fn new_tree(&self, kind: KeyKind) -> Result<TreeHandle, String> {
+        let root = self
+            .pager
+            .write()
+            .allocate_page::<BtreePage>()
+            .map_err(es)?;
+        Ok(self.tree_at(root, kind))
+    }
+
+    /// Handle for an already existing root page (nothing is read or allocated).
+    pub fn tree_at(&self, root: u64, kind: KeyKind) -> TreeHandle {
+        TreeHandle {
+            root,
+            kind,
+            schema: tree_schema(kind),
+        }
+    }
+
+    fn tree_mut(&self, t: &TreeHandle) -> Btree<BtreeWriteAccessor> {
+        Btree::new(t.root, self.pager.clone(), self.min_keys, self.siblings)
+            .with_accessor(BtreeWriteAccessor::new())
+    }
+
+    fn tree_ro(&self, t: &TreeHandle) -> Btree<BtreeReadAccessor> {
+        Btree::new(t.root, self.pager.clone(), self.min_keys, self.siblings)
+            .with_accessor(BtreeReadAccessor::new())
+    }
+
+    fn build_tuple(
+        &self,
+        t: &TreeHandle,
+        key: &Key,
+        payload: &[u8],
+        xmin: u64,
+    ) -> Result<Tuple, String> {
+        let mut values = key_datatypes(t.kind, key)?;
+        values.push(DataType::Blob(Blob::from_unencoded_slice(payload)));
+        let row = Row::new(values.into_boxed_slice());
+        TupleBuilder::from_schema(&t.schema)
+            .build(&row, xmin)
+            .map_err(es)
+    }
+
+    /// Builds the tuple with `TupleBuilder` (key col(s) + Blob payload) and calls `Btree::insert`.
+    pub fn insert(
+        &self,
+        t: &TreeHandle,
+        key: &Key,
+        payload: &[u8],
+        xmin: u64,
+    ) -> Result<(), String> {
+        let tuple = self.build_tuple(t, key, payload, xmin)?;
+        let mut tree = self.tree_mut(t);
+        tree.insert(t.root, tuple, &t.schema).map_err(es)
+    }
+
+    /// `Btree::upsert`.
+    pub fn upsert(
+        &self,
+        t: &TreeHandle,
+        key: &Key,
+        payload: &[u8],
+        xmin: u64,
+    ) -> Result<(), String> {
+        let tuple = self.build_tuple(t, key, payload, xmin)?;
+        let mut tree = self.tree_mut(t);
+        tree.upsert(t.root, tuple, &t.schema).map_err(es)
+    }
+
+    /// `Btree::update` with a freshly built tuple (NOT `add_version`).
+    pub fn update(
+        &self,
+        t: &TreeHandle,
+        key: &Key,
+        payload: &[u8],
+        xmin: u64,
+    ) -> Result<(), String> {
+        let tuple = self.build_tuple(t, key, payload, xmin)?;
+        let mut tree = self.tree_mut(t);
+        tree.update(t.root, tuple, &t.schema).map_err(es)
+    }
+
+    /// `Btree::remove` by serialized key bytes.
+    pub fn remove(&self, t: &TreeHandle, key: &Key) -> Result<(), String> {
+        let kb = key_bytes(t.kind, key)?;
+        let mut tree = self.tree_mut(t);
+        tree.remove(t.root, kb.effective_data(), &t.schema)
+            .map_err(es)
+    }
+
+    /// `Btree::search` by serialized key bytes: `Some(blob payload, reassembled)` / `None`.
+    pub fn search(&self, t: &TreeHandle, key: &Key) -> Result<Option<Vec<u8>>, String> {
+        let kb = key_bytes(t.kind, key)?;
+        let mut tree = self.tree_ro(t);
+        match tree.search(kb.effective_data(), &t.schema).map_err(es)? {
+            SearchResult::Found(pos) => {
+                let (_, payload) = tree
+                    .with_cell_at(pos, |bytes| decode_entry(t.kind, &t.schema, bytes))
+                    .map_err(es)??;
+                Ok(Some(payload))
+            }
+            SearchResult::NotFound(_) => Ok(None),
+        }
+    }
+
+    /// `iter_forward`, decoding every tuple (key + blob payload, last version).
+    pub fn scan(&self, t: &TreeHandle) -> Result<Vec<(Key, Vec<u8>)>, String> {
+        let mut tree = self.tree_ro(t);
+        let mut out = Vec::new();
+        if tree.is_empty().map_err(es)? {
+            return Ok(out);
+        }
+        let mut iter = tree.iter_forward().map_err(es)?;
+        while let Some(pos) = iter.next() {
+            let pos = pos.map_err(es)?;
+            let mut reader_tree = iter.get_tree();
+            let entry = reader_tree
+                .with_cell_at(pos, |bytes| decode_entry(t.kind, &t.schema, bytes))
+                .map_err(es)??;
+            out.push(entry);
+        }
+        Ok(out)
+    }
+
+    /// `into_iter_backward` pulled with `next_back()`.
+    pub fn scan_backward(&self, t: &TreeHandle) -> Result<Vec<(Key, Vec<u8>)>, String> {
+        let mut tree = self.tree_ro(t);
+        let mut out = Vec::new();
+        if tree.is_empty().map_err(es)? {
+            return Ok(out);
+        }
+        let mut iter = tree.into_iter_backward().map_err(es)?;
+        while let Some(pos) = iter.next_back() {
+            let pos = pos.map_err(es)?;
+            let mut reader_tree = iter.get_tree();
+            let entry = reader_tree
+                .with_cell_at(pos, |bytes| decode_entry(t.kind, &t.schema, bytes))
+                .map_err(es)??;
+            out.push(entry);
+        }
+        Ok(out)
+    }
+
+    /// `Btree::height`.
+    pub fn height(&self, t: &TreeHandle) -> Result<usize, String> {
+        let mut tree = self.tree_ro(t);
+        tree.height().map_err(es)
+    }
+
+    /// `Btree::dealloc`.
+    pub fn dealloc_tree(&self, t: &TreeHandle) -> Result<(), String> {
+        let mut tree = self.tree_mut(t);
+        tree.dealloc().map_err(es)
+    }
+
+    /// Decodes the key of a cell's FULL (reassembled) payload.
+    pub fn decode_key(&self, t: &TreeHandle, cell_payload: &[u8]) -> Result<Key, String> {
+        // Copy into an aligned buffer: the engine's readers need aligned memory.
+        let tuple = Tuple::from_slice_unchecked(cell_payload).map_err(es)?;
+        let bytes = tuple.effective_data();
+        let reader = TupleReader::from_schema(&t.schema);
+        let layout = reader.parse_last_version(bytes).map_err(es)?;
+        let tuple_ref = TupleRef::new(bytes, layout);
+        let mut keys = Vec::with_capacity(t.schema.num_keys());
+        for i in 0..t.schema.num_keys() {
+            let key_ref = tuple_ref.key_with(i, &t.schema).map_err(es)?;
+            keys.push(key_ref.to_owned().unwrap_or(DataType::Null));
+        }
+        key_from_datatypes(t.kind, &keys)
+    }
+
+    /// Decodes key and blob payload of a cell's FULL (reassembled) payload (last version).
+    pub fn decode_entry(
+        &self,
+        t: &TreeHandle,
+        cell_payload: &[u8],
+    ) -> Result<(Key, Vec<u8>), String> {
+        let tuple = Tuple::from_slice_unchecked(cell_payload).map_err(es)?;
+        decode_entry(t.kind, &t.schema, tuple.effective_data())
+    }
+
+    /// Local payload, or for an overflow cell the payload reassembled by the engine's
+    /// `Reassembler` (after a bounded walk of the chain, see `overflow_chain`).
+    pub fn full_payload(&self, cell: &CellDump) -> Result<Vec<u8>, String> {
+        if !cell.is_overflow {
+            return Ok(cell.local_payload.clone());
+        }
+        // Bounded walk first: the Reassembler itself has no protection against a cyclic chain.
+        self.overflow_chain(cell)?;
+
+        let ptr_size = std::mem::size_of::<u64>();
+        let first = cell
+            .overflow_page
+            .ok_or_else(|| "facade: overflow cell without overflow page pointer".to_string())?;
+        if cell.local_payload.len() < ptr_size {
+            return Err(format!(
+                "facade: overflow cell with a local payload of {} bytes, shorter than the page pointer",
+                cell.local_payload.len()
+            ));
+        }
+        let local = &cell.local_payload[..cell.local_payload.len() - ptr_size];
+        let owned = OwnedCell::new_overflow(local, first);
+        let mut reassembler = Reassembler::new(self.pager.clone());
+        reassembler.reassemble(owned.as_cell_ref()).map_err(es)?;
+        Ok(reassembler.into_boxed_slice().into_vec())
+    }
+
+    /// Page ids of the chain of an overflow cell, in order (empty for a normal cell).
+    /// Gives up with `Err("cycle ...")` after `total_pages + 1` steps.
+    pub fn overflow_chain(&self, cell: &CellDump) -> Result<Vec<u64>, String> {
+        if !cell.is_overflow {
+            return Ok(Vec::new());
+        }
+        let total_pages = self.pager.read().total_allocated_pages();
+        walk_chain(
+            &self.pager,
+            cell.overflow_page,
+            total_pages,
+            "overflow chain",
+        )
+    }
+
+    /// `Pager::flush` (checkpoint: WAL flush, all cached pages written, header synced, WAL truncated).
+    pub fn flush(&self) -> Result<(), String> {
+        self.pager.write().flush().map_err(es)
+    }
+}
+
+// ------------------------------------------------------------------------------------------
+// write-ahead log component level
+// ------------------------------------------------------------------------------------------
+
+#[derive(Debug, Clone, PartialEq)]
+pub struct WalRec {
+    pub lsn: u64,
+    pub tid: u64,
+    /// `RecordType as u8`.
+    pub kind: u8,
+    pub undo: Vec<u8>,
+    pub redo: Vec<u8>,
+}
+
+#[derive(Debug, Clone, PartialEq)]
+pub struct WalStatsDump {
+    pub start_lsn: u64,
+    pub last_lsn: u64,
+    pub total_blocks: u64,
+    pub total_entries: u32,
+    pub pending_blocks: usize,
+    pub block_size: usize,
+}
+
+pub const WAL_BEGIN: u8 = RecordType::Begin as u8;
+pub const WAL_COMMIT: u8 = RecordType::Commit as u8;
+pub const WAL_ABORT: u8 = RecordType::Abort as u8;
+pub const WAL_END: u8 = RecordType::End as u8;
+pub const WAL_UPDATE: u8 = RecordType::Update as u8;
+pub const WAL_DELETE: u8 = RecordType::Delete as u8;
+pub const WAL_INSERT: u8 = RecordType::Insert as u8;
+pub const WAL_CREATE: u8 = RecordType::Create as u8;
+pub const WAL_DROP: u8 = RecordType::Drop as u8;
+pub const WAL_ALTER: u8 = RecordType::Alter as u8;
+
+fn record_type(kind: u8) -> Result<RecordType, String> {
+    Ok(match kind {
+        0x00 => RecordType::Begin,
+        0x01 => RecordType::Commit,
+        0x02 => RecordType::Abort,
+        0x03 => RecordType::End,
+        0x06 => RecordType::Update,
+        0x07 => RecordType::Delete,
+        0x08 => RecordType::Insert,
+        0x09 => RecordType::Create,
+        0x0A => RecordType::Drop,
+        0x0B => RecordType::Alter,
+        other => return Err(format!("facade: {other:#04x} is not a RecordType")),
+    })
+}
+
+/// A standalone `WriteAheadLog`.
+#[derive(Debug)]
+pub struct Wal {
+    inner: WriteAheadLog,
+}
+
+impl Wal {
+    /// `WriteAheadLog::create`.
+    pub fn create(path: &Path) -> Result<Wal, String> {
+        let inner = <WriteAheadLog as FileOperations>::create(path).map_err(es)?;
+        Ok(Wal { inner })
+    }
+
+    /// `WriteAheadLog::open`.
+    pub fn open(path: &Path) -> Result<Wal, String> {
+        let inner = <WriteAheadLog as FileOperations>::open(path).map_err(es)?;
+        Ok(Wal { inner })
+    }
+
+    /// Largest total record size a block accepts.
+    pub fn max_record_size(&self) -> usize {
+        self.inner.max_record_size()
+    }
+
+    /// `total_size()` an `OwnedRecord` with these payload lengths has (header + padded payload).
+    pub fn record_total_size(undo_len: usize, redo_len: usize) -> usize {
+        RECORD_HEADER_SIZE + OwnedRecord::compute_padded_size(undo_len + redo_len)
+    }
+
+    /// Pushes a record like `Pager::push_to_log` does: lsn = last_lsn + 1 (0 for an empty log).
+    /// object_id / row_id are `Some(1)` for DML / DDL kinds so that analysis does not panic.
+    /// Returns the lsn given to the record.
+    pub fn push(&mut self, kind: u8, tid: u64, undo: &[u8], redo: &[u8]) -> Result<u64, String> {
+        let lsn = self.inner.last_lsn().map(|l| l + 1).unwrap_or(0);
+        self.push_with_lsn(kind, tid, lsn, undo, redo)?;
+        Ok(lsn)
+    }
+
+    /// Same as `push` but with an lsn chosen by the caller (`WriteAheadLog::push` takes the lsn
+    /// from the record and does not look at it otherwise).
+    pub fn push_with_lsn(
+        &mut self,
+        kind: u8,
+        tid: u64,
+        lsn: u64,
+        undo: &[u8],
+        redo: &[u8],
+    ) -> Result<(), String> {
+        let log_type = record_type(kind)?;
+        let ids = match log_type {
+            RecordType::Begin | RecordType::Commit | RecordType::Abort | RecordType::End => None,
+            _ => Some(1),
+        };
+        let record = OwnedRecord::new(lsn, tid, None, ids, ids, log_type, undo, redo);
+        self.inner.push(record).map_err(es)
+    }
+
+    /// `WriteAheadLog::perform_flush`.
+    pub fn force(&mut self) -> Result<(), String> {
+        self.inner.perform_flush().map_err(es)
+    }
+
+    /// `WriteAheadLog::truncate`.
+    pub fn truncate(&mut self) -> Result<(), String> {
+        FileOperations::truncate(&mut self.inner).map_err(es)
+    }
+
+    /// `WriteAheadLog::reader(read_ahead_blocks)` + `next_ref` loop (reads what is ON DISK).
+    pub fn read_all(&mut self, read_ahead_blocks: usize) -> Result<Vec<WalRec>, String> {
+        let mut reader = self.inner.reader(read_ahead_blocks).map_err(es)?;
+        let mut out = Vec::new();
+        while let Some(record) = reader.next_ref().map_err(es)? {
+            out.push(WalRec {
+                lsn: record.lsn(),
+                tid: record.tid(),
+                kind: record.log_type() as u8,
+                undo: record.undo_payload().to_vec(),
+                redo: record.redo_payload().to_vec(),
+            });
+        }
+        Ok(out)
+    }
+
+    /// `WriteAheadLog::stats`.
+    pub fn stats(&self) -> WalStatsDump {
+        let s = self.inner.stats();
+        WalStatsDump {
+            start_lsn: s.start_lsn,
+            last_lsn: s.last_lsn,
+            total_blocks: s.total_blocks,
+            total_entries: s.total_entries,
+            pending_blocks: s.pending_blocks,
+            block_size: s.block_size,
+        }
+    }
+
+    /// `WriteAheadLog::last_lsn`, the value `Pager::push_to_log` (and `push`) derive the next lsn
+    /// from. It is the last lsn of BLOCK ZERO (`BlockZeroHeader::last_lsn`), not
+    /// `stats().last_lsn` (the global one). None for an empty log.
+    pub fn last_lsn(&self) -> Option<u64> {
+        self.inner.last_lsn()
+    }
+
+    /// `WriteAheadLog::run_analysis`: `(needs_undo, needs_redo)`, both ascending.
+    pub fn analysis(&mut self) -> Result<(Vec<u64>, Vec<u64>), String> {
+        let result = self.inner.run_analysis().map_err(es)?;
+        Ok((
+            result.needs_undo.into_iter().collect(),
+            result.needs_redo.into_iter().collect(),
+        ))
+    }
+
+    /// Drops the log. Note: `Drop for WriteAheadLog` forces the log (and panics if that fails).
+    pub fn close(self) {
+        drop(self);
+    }
+
+    /// `std::mem::forget`: nothing buffered is written, simulates a crash of the process.
+    pub fn close_without_flush(self) {
+        std::mem::forget(self);
+    }
+}
+
+// ------------------------------------------------------------------------------------------
+// tuple component level
+// ------------------------------------------------------------------------------------------
+
+#[derive(Clone, Copy, Debug, PartialEq)]
+pub enum ColKind {
+    Int,
+    BigInt,
+    Double,
+    Bool,
+    Text,
+}
+
+#[derive(Clone, Debug, PartialEq)]
+pub enum V {
+    Null,
+    Int(i32),
+    BigInt(i64),
+    Double(f64),
+    Bool(bool),
+    Text(String),
+}
+
+/// Arguments of `Snapshot::new`.
+#[derive(Clone, Debug, PartialEq)]
+pub struct SnapSpec {
+    pub xid: u64,
+    pub xmin: u64,
+    pub xmax: Option<u64>,
+    pub active: Vec<u64>,
+    pub aborted: Vec<u64>,
+}
+
+/// A schema: the first `num_keys` columns are keys, the rest values.
+#[derive(Clone, Debug, PartialEq)]
+pub struct TupleEnv {
+    schema: Schema,
+}
+
+fn to_datatype(v: &V) -> DataType {
+    match v {
+        V::Null => DataType::Null,
+        V::Int(i) => DataType::Int(Int32(*i)),
+        V::BigInt(i) => DataType::BigInt(Int64(*i)),
+        V::Double(d) => DataType::Double(Float64(*d)),
+        V::Bool(b) => DataType::Bool(Bool(*b)),
+        V::Text(s) => DataType::Blob(Blob::from(s.as_str())),
+    }
+}
+
+fn from_datatype(d: &DataType) -> Result<V, String> {
+    match d {
+        DataType::Null => Ok(V::Null),
+        DataType::Int(i) => Ok(V::Int(i.value())),
+        DataType::BigInt(i) => Ok(V::BigInt(i.value())),
+        DataType::Double(f) => Ok(V::Double(f.value())),
+        DataType::Bool(b) => Ok(V::Bool(b.value())),
+        DataType::Blob(b) => Ok(V::Text(blob_text(b)?)),
+        other => Err(format!(
+            "facade: decoded a {other:?}, which has no counterpart in V"
+        )),
+    }
+}
+
+fn row_to_values(row: &Row) -> Result<Vec<V>, String> {
+    row.iter().map(from_datatype).collect()
+}
+
+impl TupleEnv {
+    /// Columns are named `c0`, `c1`, ...; built with `Schema::new_table_with_num_keys`.
+    pub fn new(num_keys: usize, kinds: &[ColKind]) -> TupleEnv {
+        let columns = kinds
+            .iter()
+            .enumerate()
+            .map(|(i, kind)| {
+                let dtype = match kind {
+                    ColKind::Int => DataTypeKind::Int,
+                    ColKind::BigInt => DataTypeKind::BigInt,
+                    ColKind::Double => DataTypeKind::Double,
+                    ColKind::Bool => DataTypeKind::Bool,
+                    ColKind::Text => DataTypeKind::Blob,
+                };
+                Column::new_with_defaults(dtype, &format!("c{i}"))
+            })
+            .collect();
+        TupleEnv {
+            schema: Schema::new_table_with_num_keys(columns, num_keys),
+        }
+    }
+
+    fn load(&self, tuple: &[u8]) -> Result<Tuple, String> {
+        // Copies into an aligned buffer, like the engine does when it takes a tuple out of a cell.
+        Tuple::from_slice_unchecked(tuple).map_err(es)
+    }
+
+    /// `TupleBuilder::build`: the bytes of the tuple (the same bytes that are stored in a cell).
+    pub fn build(&self, row: &[V], xmin: u64) -> Result<Vec<u8>, String> {
+        let values: Vec<DataType> = row.iter().map(to_datatype).collect();
+        let row = Row::new(values.into_boxed_slice());
+        let tuple = TupleBuilder::from_schema(&self.schema)
+            .build(&row, xmin)
+            .map_err(es)?;
+        Ok(tuple.effective_data().to_vec())
+    }
+
+    /// `Tuple::add_version_with`. Indexes in `changes` are VALUE indexes (0-based among the
+    /// value columns).
+    pub fn add_version(
+        &self,
+        tuple: &[u8],
+        changes: &[(usize, V)],
+        xmin: u64,
+    ) -> Result<Vec<u8>, String> {
+        let mut t = self.load(tuple)?;
+        let modified: HashMap<usize, DataType> = changes
+            .iter()
+            .map(|(idx, v)| (*idx, to_datatype(v)))
+            .collect();
+        t.add_version_with(&modified, xmin, &self.schema)
+            .map_err(es)?;
+        Ok(t.effective_data().to_vec())
+    }
+
+    /// `Tuple::delete`.
+    pub fn delete(&self, tuple: &[u8], xid: u64) -> Result<Vec<u8>, String> {
+        let mut t = self.load(tuple)?;
+        t.delete(xid).map_err(es)?;
+        Ok(t.effective_data().to_vec())
+    }
+
+    /// `Tuple::vaccum_with(horizon)`: `(bytes, freed)`.
+    pub fn vacuum(&self, tuple: &[u8], horizon: u64) -> Result<(Vec<u8>, usize), String> {
+        let mut t = self.load(tuple)?;
+        let freed = t.vaccum_with(horizon, &self.schema).map_err(es)?;
+        Ok((t.effective_data().to_vec(), freed))
+    }
+
+    /// `parse_last_version` + `to_row_with`.
+    pub fn decode_last(&self, tuple: &[u8]) -> Result<Vec<V>, String> {
+        let t = self.load(tuple)?;
+        let bytes = t.effective_data();
+        let layout = TupleReader::from_schema(&self.schema)
+            .parse_last_version(bytes)
+            .map_err(es)?;
+        let row = TupleRef::new(bytes, layout)
+            .to_row_with(&self.schema)
+            .map_err(es)?;
+        row_to_values(&row)
+    }
+
+    /// `parse_for_snapshot` + `to_row_with`. `None`: no version is visible to the snapshot.
+    pub fn decode_for(&self, tuple: &[u8], snap: &SnapSpec) -> Result<Option<Vec<V>>, String> {
+        let snapshot = Snapshot::new(
+            snap.xid,
+            snap.xmin,
+            snap.xmax,
+            snap.active.iter().copied().collect::<HashSet<u64>>(),
+            snap.aborted.iter().copied().collect::<HashSet<u64>>(),
+        );
+        let t = self.load(tuple)?;
+        let bytes = t.effective_data();
+        let Some(layout) = TupleReader::from_schema(&self.schema)
+            .parse_for_snapshot(bytes, &snapshot)
+            .map_err(es)?
+        else {
+            return Ok(None);
+        };
+        let row = TupleRef::new(bytes, layout)
+            .to_row_with(&self.schema)
+            .map_err(es)?;
+        Ok(Some(row_to_values(&row)?))
+    }
+
+    /// Tuple header: `(xmin, xmax, version)`.
+    pub fn header(&self, tuple: &[u8]) -> Result<(u64, Option<u64>, u8), String> {
+        let t = self.load(tuple)?;
+        Ok((t.xmin(), t.xmax(), t.version()))
+    }
+}
